@@ -37,6 +37,9 @@ CHECKS = {
  "C19": dict(level="model_checking", technique="explicit-state BFS over plain/versioned writes on a newer database (SEQ) + preemption-bounded interleavings of two writers with a watcher (ILV)",
    text="All sequences up to the bound of set / set-safe (version below, at, above current) / remove / increment / snapshot on two keys of a newer-strategy database with a watcher: no write refused, the value read back is the one just written, version strictly grows, the watcher gets exactly one notification per stored change. ILV: every pair of single writes (and 2+1 in thorough) from two clients: no refusal, final value was written, version grew, the watcher's highest-versioned notification equals the final value.",
    note="Every write carries a unique value. Replica agreement is decided by the cluster checks. Versions a client can present are >= -1.", design="7/C19"),
+ "C20": dict(level="model_checking", technique="bounded-exhaustive enumeration of HTTP bodies on the real tiny_http front end vs a reference model of the single-node semantics",
+   text="Every body of 1..4 (quick) / 1..5 (thorough) commands over 18 letters (auth ok/bad, use-db ok/bad/user token, get, get-safe, set, set-safe accepted/stale, remove, increment numeric/non-numeric, keys, create-db allowed/refused, secure key, watch; refusals for missing selection and missing permission arise from the order) is POSTed to the real start_http_client server (8 instances in parallel); bodies of <=2 commands also with trailing ';', blank statements and padding. Oracle: reply split on ';' equals, entry by entry, what the reference says each command alone produces; afterwards the database content equals the model (each command executed once, in order), no watcher of the request remains, $connections is back to 0.",
+   note="The harness resets the server's state between bodies. Values contain no ';' or newline. WebSocket frames are not part of this check.", design="7/C20"),
 }
 
 def main():
